@@ -172,4 +172,22 @@ var props = map[string]*propCfg{
 		Stub: []string{"Mesos master, agents, executors and tasks: simmesos behind the calls.Caller seam (verif hook SetCallerForVerif)", "Consul: simconsul (http.RoundTripper)", "Kafka: capturing event writers", "gRPC transport: RPC methods are called directly on the RpcServer object (verif hook)", "metrics HTTP server: disabled (port -1)"},
 		Assumptions: append([]string{"simmesos is a model of Mesos written from the scheduler API documentation", "violations are confirmed by replaying the recorded tape in a fresh process (canonical log hash must match); tapes of this harness are not shrunk"}, commonAssumptions...),
 	},
+	"C05": {
+		Harness: "hcore", Level: "exploration", OnePerProcess: true,
+		QuickRuns: 3000, QuickBudgetS: 120, ThoroughRuns: 200000, ThoroughBudgetS: 1800,
+		WatchdogSlackS: 180, DetSeedsQuick: 0, DetSeedsThorough: 0,
+		Rule: "one run = whole core, 2-4 agents with drawn attributes (zone, multi-valued kind), scalar resources near and far from the demand (0.45/1.2/8 cpus, 300/4096 MB) and fragmented port ranges; one workflow with constraints at root, group, role and task-template level (same attribute redefined nearer), tasks wanting 0.1-1 cpu, 64-256 MB, optional static ports, 0-2 inbound channels; oracles at the simulated master for every ACCEPT: no launch beyond the offer (scalars summed over the launches of one ACCEPT incl. a new executor, ports inside the offer and distinct), agent satisfies all merged constraints (reference merge: nearest definition wins), template wants covered, static ranges requested verbatim, every offer used or declined, core does not crash; distinct = distinct (scenario, interleaving)",
+		Real: []string{"core.RpcServer methods (NewEnvironment, ControlEnvironment, DestroyEnvironment, GetEnvironments, GetTasks, CleanupTasks)", "core/environment: Manager (create, teardown, event loop), Environment FSM, transition_*.go bodies", "core/task: Manager (acquire/configure/transition/release/kill, status handling), scheduler event handlers (offers, updates, messages, failure, reconciliation), roster, matching", "core/controlcommands", "core/workflow (load from a generated local git repository, role tree, template processing)", "core/repos (local repository)", "apricot/local + cfgbackend.ConsulSource + hashicorp consul api", "mesos-go controller, event/call rules, ack handling", "looplab/fsm (instrumented copy)"},
+		Stub: []string{"Mesos master, agents, executors and tasks: simmesos behind the calls.Caller seam (verif hook SetCallerForVerif)", "Consul: simconsul (http.RoundTripper)", "Kafka: capturing event writers", "gRPC transport: RPC methods are called directly on the RpcServer object (verif hook)", "metrics HTTP server: disabled (port -1)"},
+		Assumptions: append([]string{"simmesos validates an ACCEPT the way a Mesos master does (documented behaviour); the code's numeric port thresholds are not part of the oracle", "violations are confirmed by replay in a fresh process; tapes of this harness are not shrunk"}, commonAssumptions...),
+	},
+	"C13": {
+		Harness: "hcore", Level: "exploration", OnePerProcess: true,
+		QuickRuns: 3000, QuickBudgetS: 120, ThoroughRuns: 200000, ThoroughBudgetS: 1800,
+		WatchdogSlackS: 180, DetSeedsQuick: 0, DetSeedsThorough: 0,
+		Rule: "one run = whole core, a workflow of 1-4 FairMQ tasks with 0-2 inbound (tcp/ipc, transports, global aliases) and 0-2 outbound channels each (target by role path, by alias, explicit tcp://, dangling); oracles on the CONFIGURE arguments each simulated executor receives: every inbound channel is told to bind an endpoint whose port was allocated to that task, every outbound channel gets tcp://<host of the binder>:<that port> (or the ipc path) and the inbound side's transport, explicit targets unchanged, dangling targets and clashing aliases make the configuration fail; distinct = distinct (scenario, interleaving)",
+		Real: []string{"core.RpcServer methods (NewEnvironment, ControlEnvironment, DestroyEnvironment, GetEnvironments, GetTasks, CleanupTasks)", "core/environment: Manager (create, teardown, event loop), Environment FSM, transition_*.go bodies", "core/task: Manager (acquire/configure/transition/release/kill, status handling), scheduler event handlers (offers, updates, messages, failure, reconciliation), roster, matching", "core/controlcommands", "core/workflow (load from a generated local git repository, role tree, template processing)", "core/repos (local repository)", "apricot/local + cfgbackend.ConsulSource + hashicorp consul api", "mesos-go controller, event/call rules, ack handling", "looplab/fsm (instrumented copy)"},
+		Stub: []string{"Mesos master, agents, executors and tasks: simmesos behind the calls.Caller seam (verif hook SetCallerForVerif)", "Consul: simconsul (http.RoundTripper)", "Kafka: capturing event writers", "gRPC transport: RPC methods are called directly on the RpcServer object (verif hook)", "metrics HTTP server: disabled (port -1)"},
+		Assumptions: append([]string{"simmesos validates an ACCEPT the way a Mesos master does (documented behaviour); the code's numeric port thresholds are not part of the oracle", "violations are confirmed by replay in a fresh process; tapes of this harness are not shrunk"}, commonAssumptions...),
+	},
 }
